@@ -620,7 +620,7 @@ func oneWritePerChild(r *Report, p *Program, rule string) {
 		for _, s := range inFn[f] {
 			m[s.Instr.(ssa.Instruction)] = true
 		}
-		return func(in ssa.Instruction) bool { return m[in] }
+		return func(in ssa.Instruction) bool { return m[in] || isSinkOrThinWrapper(p, in, "") }
 	}
 	preparatory := func(s engine.Sink) bool {
 		if s.Verb != "Patch" {
@@ -739,14 +739,16 @@ func deleteTable(r *Report, p *Program, rule string) {
 	}
 	l := loops[0]
 	paths, err := engine.EnumPaths(f, engine.EnumOpts{Start: l.Body, Leave: func(b *ssa.BasicBlock) bool { return b == l.Header || b == l.Exit },
-		Effect: func(in ssa.Instruction) bool { return isCallTo(in, "dynamic.ResourceInterface.Delete") }})
+		Effect: func(in ssa.Instruction) bool { return isSinkOrThinWrapper(p, in, "Delete") }})
 	ok, why := err == nil, ""
 	if err != nil {
 		why = err.Error()
 	}
 	key := E(l.Key)
 	for _, pa := range paths {
-		pending := -val(pa, -1, func(a string) bool { return strings.HasPrefix(a, "(call(unstructured.Unstructured.GetDeletionTimestamp)("+E(l.Val)+") == nil)") })
+		pending := -val(pa, -1, func(a string) bool {
+			return strings.HasPrefix(a, "(call(unstructured.Unstructured.GetDeletionTimestamp)("+E(l.Val)+") == nil)")
+		})
 		noMap := val(pa, -1, func(a string) bool { return a == "(p3 == nil)" })
 		absent := val(pa, -1, func(a string) bool { return a == "(p3["+key+"] == nil)" })
 		del := len(pa.Effects) > 0
@@ -810,4 +812,23 @@ func strategyMapTable(r *Report, p *Program, rule string) {
 		}
 		r.Check(rule, FK(f), p.Pos(f.Pos()), ok, "stored ⇔ configured ∧ ¬OnDelete ∧ known", why)
 	}
+}
+
+// isSinkOrThinWrapper: in is a dynamic-client write of the given verb ("" = any), or a call of a module
+// function that does nothing but that one write (an extracted helper).
+func isSinkOrThinWrapper(p *Program, in ssa.Instruction, verb string) bool {
+	ci, ok := in.(ssa.CallInstruction)
+	if !ok {
+		return false
+	}
+	k := engine.CallKey(ci.Common())
+	if iface, v, isSink := engine.ClassifySink(k); isSink && iface == "dyn" && (verb == "" || v == verb) {
+		return true
+	}
+	if g := engine.StaticFn(ci.Common()); g != nil && strings.HasPrefix(FK(g), engine.ModPrefix) && len(g.Blocks) > 0 {
+		if s := thinWrapperSink(p, g); s != nil && s.Iface == "dyn" && (verb == "" || s.Verb == verb) {
+			return true
+		}
+	}
+	return false
 }
